@@ -249,6 +249,36 @@ def r_tree_type(ck: Checker) -> None:
     (ck.violation if bad else ck.holds)("R-TREE-TYPE", f, f.node, what, evaluations=len(leaves), **({"construct": f"get_first_ancestor_of_type: {bad[0]}"} if bad else {}))
 
 
+def r_tree_state(ck: Checker) -> None:
+    """Tree queries are pure functions of the tables built at construction: no method but __init__ writes Tree state."""
+    c = ck.repo.cls(TREE, "Tree")
+    n = 0
+    for st in c.node.body:
+        if not isinstance(st, ast.FunctionDef) or st.name == "__init__":
+            continue
+        n += 1
+        f = ck.repo.func(TREE, f"Tree.{st.name}")
+        bad = None
+        for x in walk_body(f.node.body):
+            if isinstance(x, (ast.Attribute, ast.Subscript)) and isinstance(x.ctx, (ast.Store, ast.Del)) and norm(x).startswith("self."):
+                bad = norm(x)
+            if isinstance(x, ast.Call) and isinstance(x.func, ast.Attribute) and norm(x.func.value).startswith("self._") \
+                    and x.func.attr in ("setdefault", "update", "pop", "clear", "append", "add", "popitem"):
+                bad = norm(x)[:50]
+        what = f"Tree.{st.name} does not write Tree state (answers cannot depend on earlier queries)"
+        if bad:
+            ck.violation("R-TREE-STATE", f, f.node, what, construct=f"Tree.{st.name} writes {bad}")
+        else:
+            ck.holds("R-TREE-STATE", f, f.node, what)
+    for d in c.node.body:
+        if isinstance(d, ast.FunctionDef):
+            for dec in d.decorator_list:
+                if (dotted(dec.func if isinstance(dec, ast.Call) else dec) or "").split(".")[-1] in ("lru_cache", "cache", "cached_property"):
+                    ck.violation("R-TREE-STATE", (c.mod.rel, f"Tree.{d.name}"), d, "Tree queries are not memoised", construct=f"Tree.{d.name} is memoised")
+    if n < 8:
+        ck.incomplete("R-TREE-STATE", None, None, f"only {n} Tree methods (>= 8 expected)")
+
+
 def run(ck: Checker) -> None:
     ck.explanation = (
         "Structural analysis of tree.py: both tables are filled from one full traversal with (parent, field, index) of the same record and "
@@ -263,6 +293,7 @@ def run(ck: Checker) -> None:
     ck.guard("R-TREE-RAISE", lambda: r_tree_raise(ck))
     ck.guard("R-TREE-CHAIN", lambda: r_tree_chain(ck))
     ck.guard("R-TREE-TYPE", lambda: r_tree_type(ck))
+    ck.guard("R-TREE-STATE", lambda: r_tree_state(ck))
     ck.guard("R-PRESENCE", lambda: T.r_presence(ck))
     ck.require_count("R-TREE-FILL", 5)
     ck.require_count("R-TREE-RAISE", 4)
